@@ -1,6 +1,7 @@
 import Chewing.Proofs.ConvChewing
 import Chewing.Proofs.ConvSimpleInv
 import Chewing.Proofs.ConvLive
+import Chewing.Proofs.ConvFuel
 import Chewing.Proofs.ConvSpec
 /-!
 # C03 — Conversion always tiles the whole buffer, one output character per symbol
@@ -195,6 +196,14 @@ theorem break_not_spanned (hc : CompValid c) (hd : NoEmptyKey d) (h : convert pi
 theorem shortest_path_terminates {es : List Edge} {len : Nat} (hv : EdgesValid len es) (removed : List Nat)
     {source : Nat} (hs : source ≤ len) : ∃ r, shortestPath es len removed source = .ok r :=
   shortestPath_total hv removed hs
+
+/-- **fuel_suffices**: on a valid composition no engine ever exhausts the model's fuel — with or without a
+    word per syllable, whatever the oracle answers: the outcome is a result or a (modelled) panic -/
+theorem fuel_suffices (hc : CompValid c) (hd : NoEmptyKey d) : convert pick eng d c ≠ .outOfFuel := by
+  cases eng with
+  | chewing => exact convertChewing_ne hc hd
+  | fuzzy => exact convertChewing_ne hc hd
+  | simple => simp [convert]
 
 /-- … and the graph `find_intervals` builds is such a graph -/
 theorem find_intervals_valid {strat : Strategy} {es : List Edge} (hc : CompValid c) (hd : NoEmptyKey d)
